@@ -17,14 +17,14 @@ theorem step_size (s s' : S) (a : Act) (hs : step s a = some s') : s'.size = s.s
     (repeat' split at hs) <;> (try cases hs) <;> simp [spawnWorker] <;> (try split) <;> rfl
   | closer pc =>
     cases pc <;> simp only [step, stepCloser] at hs <;>
-    (repeat' split at hs) <;> (try cases hs) <;> rfl
+    (repeat' split at hs) <;> (try cases hs) <;> simp [enterDrained]
 
 theorem gstruct_step (s s' : S) (a : Act) (h : GStruct s) (hs : step s a = some s') : GStruct s' := by
-  obtain ⟨s1, s2⟩ := h
+  obtain ⟨s1, s2, s3⟩ := h
   cases a with
   | add n =>
     simp only [step] at hs; cases hs
-    constructor <;> simp_all [tally_snoc, aBadShard]
+    constructor <;> simp_all [tally_snoc]
   | close => simp only [step] at hs; cases hs; constructor <;> simp_all
   | die => simp only [step] at hs; cases hs; constructor <;> simp_all
   | adder i =>
@@ -36,7 +36,7 @@ theorem gstruct_step (s s' : S) (a : Act) (h : GStruct s) (hs : step s a = some 
       have hb' := tally_ge (aBadShard s.size) ha
       split at hs <;> (repeat' split at hs) <;> (try cases hs) <;>
         constructor <;> simp only [setAdder, spawnWorker, aBadShard] at * <;>
-        (try (rename_i hsh; have := shardOf_lt (by omega) hsh)) <;> grind
+        (try (have := @shardOf_lt (s.idx + 1) s.size)) <;> grind
   | wk n e =>
     simp only [step, stepWorker] at hs
     split at hs <;> (repeat' split at hs) <;> (try cases hs) <;>
@@ -46,19 +46,20 @@ theorem gstruct_step (s s' : S) (a : Act) (h : GStruct s) (hs : step s a = some 
       constructor <;> simp only [spawnWorker] at * <;> grind
   | closer pc =>
     cases pc <;> simp only [step, stepCloser] at hs <;> (repeat' split at hs) <;> (try cases hs) <;>
-      constructor <;> grind
+      constructor <;> simp only [enterDrained] at * <;> grind
 
 theorem gstruct_init (n : Nat) : GStruct (init n) := by
   constructor <;> simp [init]
 
-theorem glock_step (s s' : S) (a : Act) (h : GLock s) (hs : step s a = some s') : GLock s' := by
+theorem glock_step (s s' : S) (a : Act) (h : GLock s) (hM : GMisc s) (hs : step s a = some s') : GLock s' := by
   obtain ⟨l1, l2, l3, l4⟩ := h
+  have hm3 := hM.m3
   cases a with
   | add n =>
     simp only [step] at hs; cases hs
     constructor
-    · intro sh v hv; have := l1 sh v hv; simp_all [tally_snoc, aLk, wLk]
-    · simp_all [tally_snoc, aLL]
+    · intro sh v hv; have := l1 sh v hv; simp_all [tally_snoc, wLk, cLk]
+    · simp_all [tally_snoc]
     · exact l3
     · exact l4
   | close => simp only [step] at hs; cases hs; exact ⟨l1, l2, l3, l4⟩
@@ -75,24 +76,25 @@ theorem glock_step (s s' : S) (a : Act) (h : GLock s) (hs : step s a = some s') 
               have hc := tally_set (aLk sh) (l := s.adders) (i := i) (a := a)
               have hc' := tally_ge (aLk sh) ha
               have hl := l1 sh; have hl3 := l3 sh)) <;>
-        simp only [setAdder, spawnWorker, aLL, aLk, wLk] at * <;> grind
+        simp only [setAdder, spawnWorker, aLL, aLk, wLk, cLk] at * <;> grind
   | wk n e =>
     simp only [step, stepWorker] at hs
     split at hs <;> (repeat' split at hs) <;> (try cases hs) <;> constructor <;>
       (try (intro sh v hv; have hl := l1 sh; have hl3 := l3 sh)) <;>
-      simp only [endDeal, wLk] at * <;> grind
+      simp only [endDeal, wLk, cLk] at * <;> grind
   | tail pc =>
     cases pc <;> simp only [step, stepTail] at hs <;> (repeat' split at hs) <;> (try cases hs) <;>
       constructor <;> (try (intro sh v hv; have hl := l1 sh; have hl3 := l3 sh)) <;>
-      simp only [spawnWorker, wLk] at * <;> grind
+      simp only [spawnWorker, wLk, cLk] at * <;> grind
   | closer pc =>
     cases pc <;> simp only [step, stepCloser] at hs <;> (repeat' split at hs) <;> (try cases hs) <;>
-      constructor <;> (try (intro sh v hv; have hl := l1 sh; have hl3 := l3 sh)) <;> simp only [wLk] at * <;> grind
+      constructor <;> (try (intro sh v hv; have hl := l1 sh; have hl3 := l3 sh; have hlc := l1 s.cShard; have hlc3 := l3 s.cShard)) <;>
+      simp only [wLk, cLk, enterDrained] at * <;> grind
 
 theorem glock_init (n : Nat) : GLock (init n) := by
   constructor
   · intro sh v hv
-    simp [init, wLk, List.getElem?_replicate] at *
+    simp [init, wLk, cLk, List.getElem?_replicate] at *
     omega
   · simp [init]
   · intro sh v hv
